@@ -192,9 +192,12 @@ func (g *Gen) zeroInit(h *Heap, t types.Type, addr string) *Heap {
 		}
 		return h
 	}
-	if _, ok := t.Underlying().(*types.Array); ok {
-		g.vc.abstract("array-typed local: contents not modelled")
-		return h
+	if at, ok := t.Underlying().(*types.Array); ok {
+		es := elemSort(at.Elem())
+		name := elemVar(at.Elem())
+		srt := ArrSort(SInt, ArrSort(SInt, es))
+		arr := h.Get(name, srt)
+		return h.Set(name, srt, Sto(arr, addr, fmt.Sprintf("((as const (Array Int %s)) %s)", es, m.zeroVal(at.Elem()))))
 	}
 	s := sortOf(t)
 	name := cellVar(t)
@@ -203,6 +206,14 @@ func (g *Gen) zeroInit(h *Heap, t types.Type, addr string) *Heap {
 }
 
 func (g *Gen) indexCheck(x *ssa.IndexAddr, h *Heap, guard string) {
+	if pa, ok := x.X.Type().Underlying().(*types.Pointer); ok {
+		if at, ok := pa.Elem().Underlying().(*types.Array); ok {
+			if _, isConst := x.Index.(*ssa.Const); !isConst {
+				i := g.val(x.Index)
+				g.nopanic("index", guard, And(App("<=", "0", i), App("<", i, fmt.Sprint(at.Len()))), x.Pos(), "array index in range")
+			}
+		}
+	}
 	if _, ok := x.X.Type().Underlying().(*types.Slice); ok {
 		i := g.val(x.Index)
 		g.nopanic("index", guard, And(App("<=", "0", i), App("<", i, g.model.slLen(g.val(x.X)))), x.Pos(), "index in range")
@@ -228,6 +239,13 @@ func (g *Gen) load(ptr ssa.Value, h *Heap, guard string) string {
 			}
 			return m.slElem(h, sl.Elem(), g.val(a.X), g.val(a.Index))
 		}
+		if pa, ok := a.X.Type().Underlying().(*types.Pointer); ok {
+			if at, ok := pa.Elem().Underlying().(*types.Array); ok {
+				es := elemSort(at.Elem())
+				arr := h.Get(elemVar(at.Elem()), ArrSort(SInt, ArrSort(SInt, es)))
+				return Sel(Sel(arr, g.val(a.X)), g.val(a.Index))
+			}
+		}
 		g.vc.abstract("indexing through pointer to array: uninterpreted")
 		return g.vc.Fresh("arrelem", sortOf(pt))
 	}
@@ -249,6 +267,16 @@ func (g *Gen) store(ptr ssa.Value, val string, vt types.Type, h *Heap, guard str
 	case *ssa.IndexAddr:
 		if sl, ok := a.X.Type().Underlying().(*types.Slice); ok {
 			return m.slElemStore(h, sl.Elem(), g.val(a.X), g.val(a.Index), val)
+		}
+		if pa, ok := a.X.Type().Underlying().(*types.Pointer); ok {
+			if at, ok := pa.Elem().Underlying().(*types.Array); ok {
+				es := elemSort(at.Elem())
+				name := elemVar(at.Elem())
+				srt := ArrSort(SInt, ArrSort(SInt, es))
+				arr := h.Get(name, srt)
+				base := g.val(a.X)
+				return h.Set(name, srt, Sto(arr, base, Sto(Sel(arr, base), g.val(a.Index), val)))
+			}
 		}
 		g.vc.abstract("store through pointer to array element: not modelled")
 		return h
